@@ -83,6 +83,10 @@ func propC07(c *ctx) error {
 		{[][2]string{{"t", `<div :insert="f"><p :define="g">G</p></div><p :define="f">F</p><q :insert="g">o</q>`}}, "t", `<div>F</div><q>G</q>`, ""},
 		{[][2]string{{"t", `<q :insert="g">o</q><div :replace="f">x<span><p :define="g"> G </p></span></div><p :define="f">F</p>`}}, "t", `<q> G </q>F`, ""},
 		{[][2]string{{"u", `<i :insert="deep">o</i>`}, {"t", `<p :define="f"><a :if="${f}"><b :define="deep">D</b></a></p>`}}, "u", `<i>D</i>`, ""},
+		// the fragment name is computed at EVERY rendering of the host, in the scope of that rendering
+		{[][2]string{{"t", `<template :define="card-a">A</template><template :define="card-b">B</template><ul><li :range="_, k : ks" :insert="card-${k}">x</li></ul>`}}, "t", `<ul><li>A</li><li>B</li><li>A</li></ul>`, ""},
+		{[][2]string{{"t", `<template :define="card-a">A</template><template :define="card-b">B</template><p :range="_, k : ks" :replace="card-${k}">x</p>|<p :range="_, k : ks"><i :with="j := ${k}" :insert="${'card-'}${j}">x</i></p>`}}, "t", `ABA|<p><i>A</i></p><p><i>B</i></p><p><i>A</i></p>`, ""},
+		{[][2]string{{"t", `<template :define="card-a">A</template><ul><li :range="_, k : ks" :insert="card-${k}">x</li></ul>`}}, "t", "", "tplNotFound"},
 		// a recursive fragment bounded by the data (tree rendering)
 		{[][2]string{{"t", `<ul><li :range="_, n : tree" :insert="node">x</li></ul><template :define="node"><b :text="${n.name}">b</b><ul :if="${len(n.kids) > 0}"><li :range="_, n : n.kids" :insert="node">x</li></ul></template>`}}, "t",
 			`<ul><li><b>a</b><ul><li><b>a1</b></li><li><b>a2</b><ul><li><b>a2x</b></li></ul></li></ul></li><li><b>b</b></li></ul>`, ""},
@@ -90,7 +94,7 @@ func propC07(c *ctx) error {
 	for _, t := range cases {
 		leaf := func(n string) val { return vMap(kv{"name", vStr(n)}, kv{"kids", vAnySlice()}) }
 		tree := vAnySlice(vMap(kv{"name", vStr("a")}, kv{"kids", vAnySlice(leaf("a1"), vMap(kv{"name", vStr("a2")}, kv{"kids", vAnySlice(leaf("a2x"))}))}), leaf("b"))
-		rc := &renderCase{Files: t.files, Tpl: t.tpl, Data: vMap(kv{"n", vStr("nope")}, kv{"f", vBool(false)}, kv{"bs", vAnySlice(vBool(true), vBool(false))}, kv{"tree", tree}).j}
+		rc := &renderCase{Files: t.files, Tpl: t.tpl, Data: vMap(kv{"n", vStr("nope")}, kv{"f", vBool(false)}, kv{"bs", vAnySlice(vBool(true), vBool(false))}, kv{"tree", tree}, kv{"ks", vStrSlice("a", "b", "a")}).j}
 		impl, _, err := compareRender(c, rc, true)
 		if err != nil {
 			return err
